@@ -238,6 +238,7 @@ func TestVerifC06(t *testing.T) {
 	stuck := map[string]hostShape{"h1": {Exec: []string{A}}, "h2": {}, "h3": {Exec: []string{A}}} // h2 must catch up
 	clean := map[string]hostShape{"h1": {Exec: []string{A}}, "h2": {Exec: []string{A}}, "h3": {Exec: []string{A}}}
 	var vars []variant
+	vars = append(vars, variant{"racefile", reqSpec{Kind: "none"}, nil, clean, "flow", -1, "race", false})
 	for _, rq := range []reqSpec{{Kind: "to", To: "h2"}, {Kind: "from", From: "h1"}, {Kind: "forced", From: "h1"}, {Kind: "worker", To: "h2"}} {
 		vars = append(vars,
 			variant{"clean", rq, nil, clean, "flow", -1, "", false},
@@ -265,7 +266,7 @@ func TestVerifC06(t *testing.T) {
 				id := fmt.Sprintf("c06-%s-%s%s%s-l%d-t%d", v.name, v.req.Kind, v.req.To, v.req.From, limit, tmo)
 				sc := vScenario{ID: id, Hosts: hosts, Master: "h1", Manager: "h3", W: 1, Base: 3, Req: v.req, Policy: v.policy, Rounds: 40,
 					Shape: v.shape, Fault: v.fault,
-					Cfg: map[string]any{"catchup_timeout": 2, "max_attempts": limit, "switchover_timeout": tmo, "failover": v.second == "auto"}}
+					Cfg: map[string]any{"catchup_timeout": 2, "max_attempts": limit, "switchover_timeout": tmo, "failover": v.second == "auto" || v.second == "race"}}
 				var start time.Time
 				var snaps = map[int][2]string{}
 				res := vRun(t, &sc, vRunOpts{keepTrace: true,
@@ -315,9 +316,14 @@ func TestVerifC06(t *testing.T) {
 								s.Z.Put(vNS+"/"+pathCurrentSwitch, string(b))
 							}
 						}
-						if v.second == "auto" && round == 2 {
+						if (v.second == "auto" || v.second == "race") && round == 2 {
 							s.W.Crash("h1")
 							s.kill("h1")
+						}
+						if v.second == "race" && round == 2 {
+							// an operator's request lands right AFTER the manager has read "no request" and before it files its own
+							// automatic failover in the same iteration: create-if-absent must lose, not overwrite
+							s.Z.Hook = &c06RaceHook{inner: s.Z.Hook, s: s}
 						}
 						return false
 					}})
@@ -333,4 +339,35 @@ func TestVerifC06(t *testing.T) {
 		}
 	}
 	meta.emit(map[string]any{"summary": true, "runs": runs, "bases": runs, "stragglers": vStragglers})
+}
+
+
+// c06RaceHook files an operator's request between the manager's read of the (absent) switch key and whatever the
+// manager does next in the same iteration.
+type c06RaceHook struct {
+	inner verifsim.ZkHook
+	s     *vSim
+	done  bool
+}
+
+func (h *c06RaceHook) BeforeZk(client, op, path string) (int32, bool) {
+	if h.inner != nil {
+		return h.inner.BeforeZk(client, op, path)
+	}
+	return 0, false
+}
+
+func (h *c06RaceHook) AfterZk(client, op, path string, code int32) bool {
+	_, _, _, healthy := h.s.Z.NodeInfo(vNS + "/" + pathHealthPrefix + "/h1")
+	// ... in the iteration that will file: the dead master's health record has expired
+	if !h.done && !healthy && op == "GetData" && path == vNS+"/"+pathCurrentSwitch && code != 0 && client != "tool" {
+		h.done = true
+		sw := Switchover{To: "h3", Cause: CauseManual, MasterTransition: SwitchoverTransition, InitiatedBy: "operator", InitiatedAt: time.Now()}
+		b, _ := json.Marshal(&sw)
+		h.s.Z.Put(vNS+"/"+pathCurrentSwitch, string(b))
+	}
+	if h.inner != nil {
+		return h.inner.AfterZk(client, op, path, code)
+	}
+	return false
 }
